@@ -64,7 +64,7 @@ func TestVerifC02(t *testing.T) {
 	for _, c := range model.InteractionDocs() {
 		check(c)
 	}
-	n := r.Pick(15000, 500000)
+	n := r.Pick(40000, 500000)
 	g := &model.Gen{R: r.Rand("c02", "random"), Hazard: 0.12}
 	for i := 0; i < n; i++ {
 		d := g.Doc()
